@@ -815,6 +815,7 @@ pub fn arch(c: &OpCase) -> ZkStdLibArch {
         "ec" => crate::ops_ecc::arch(c),
         "h" => crate::ops_hash::arch(c),
         "b64" => crate::ops_parse::b64_arch(c),
+        "map" => crate::ops_map::arch(c),
         "pi" => crate::ops_pi::arch(c),
         _ => ZkStdLibArch { nr_pow2range_cols: c.cols, ..ZkStdLibArch::default() },
     }
@@ -827,6 +828,7 @@ pub fn body<L: Layouter<F>>(c: &OpCase, s: &ZkStdLib, l: &mut L, w: &[Value<F>],
         "ec" => crate::ops_ecc::body(c, s, l, w, wb),
         "h" => crate::ops_hash::body(c, s, l, w),
         "b64" => crate::ops_parse::b64_body(c, s, l, w),
+        "map" => crate::ops_map::body(c, s, l, w),
         "pi" => crate::ops_pi::body(c, s, l, w, wb),
         _ => {
             for p in &native_body(c, s, l, w)? {
@@ -857,6 +859,11 @@ pub fn judge(c: &OpCase, publics: &[Fq]) -> Judgement {
                 Some(m) => Judgement::NonCanonicalExposure(m),
                 None => Judgement::Holds,
             },
+            Ok(false) => Judgement::Inadmissible,
+            Err(e) => Judgement::Wrong(e),
+        },
+        "map" => match crate::ops_map::check(c, publics) {
+            Ok(true) => Judgement::Holds,
             Ok(false) => Judgement::Inadmissible,
             Err(e) => Judgement::Wrong(e),
         },
@@ -920,7 +927,7 @@ pub fn expected_admissible(c: &OpCase) -> bool {
         "h" => crate::ops_hash::expected_admissible(c),
         "ng" => crate::ops_ng::expected_admissible(c),
         "rx" => crate::ops_parse::rx_expected_admissible(c),
-        "sp" | "vh" => true,
+        "sp" | "vh" | "map" => true,
         "b64" => crate::ops_parse::b64_expected_admissible(c),
         _ => {
             let ins: Vec<Fq> = c.ins.iter().map(|x| x.0).collect();
@@ -945,7 +952,9 @@ pub fn all_ops() -> Vec<String> {
 }
 
 pub fn gen_case(rng: &mut Prng, op: &str) -> OpCase {
-    if op.starts_with("vh.") {
+    if op.starts_with("map.") {
+        crate::ops_map::gen_case(rng)
+    } else if op.starts_with("vh.") {
         crate::ops_hash::varsha::gen_case(rng)
     } else if op.starts_with("sp.") {
         crate::ops_hash::sponge::gen_case(rng)
